@@ -63,10 +63,11 @@ theorem inv_enter (hub : st.ub = false) (targ : Str) : Inv o (enter o st targ) :
   · exact ⟨hub, trivial, by simp⟩
 
 theorem inv_afterData (hub : st.ub = false) (hs : st.stack ≠ []) (p : Path) (np : Str) (size : Int)
-    (count : Nat) (pr wr : Str) : Inv o (afterData st p np size count pr wr) := by
+    (count : Nat) (pr wr : Str) : Inv o (afterData o st p np size count pr wr) := by
   unfold afterData
   simp only
-  split <;> exact ⟨hub, trivial, by simp [hs]⟩
+  repeat' split
+  all_goals exact ⟨hub, trivial, by simp [hs]⟩
 
 theorem inv_handleFile (hc : CntOk o) (hub : st.ub = false) (hs : st.stack ≠ []) (np : Str) (mode : Nat)
     (size : Int) : Inv o (handleFile o st np mode size) := by
@@ -138,7 +139,7 @@ theorem inv_handleRecord (hc : CntOk o) (hub : st.ub = false) (line : Str) (ch :
         · exact inv_handleDir hfl (by simp [St.flag, hs]) _ _
         · exact inv_handleFile hc hfl (by simp [St.flag, hs]) _ _ _
 
-theorem inv_afterResponse (hub : st.ub = false) (np : Str) (d : Bool) : Inv o (afterResponse o st np d) := by
+theorem inv_afterResponse (hub : st.ub = false) (np : Str) (d : Wrerr) : Inv o (afterResponse o st np d) := by
   unfold afterResponse
   split
   · rename_i hs; exact ⟨hub, trivial, by simp [hs]⟩
@@ -149,8 +150,9 @@ theorem inv_afterResponse (hub : st.ub = false) (np : Str) (d : Bool) : Inv o (a
       · refine ⟨by simp [St.reply, doUtimes_ub, hub], trivial, by simp [St.reply, doUtimes_stack']⟩
       · refine ⟨by simp [doUtimes_ub, hub], trivial, by simp [doUtimes_stack']⟩
     · split
-      · exact ⟨hub, trivial, by simp [hs]⟩
       · exact ⟨hub, trivial, by simp [St.reply, hs]⟩
+      · exact ⟨hub, trivial, by simp [St.reply, hs]⟩
+      · exact ⟨hub, trivial, by simp [hs]⟩
 
 theorem inv_dataEOF (hub : st.ub = false) (p : Path) (wr : Str) : Inv o (dataEOF o st p wr) := by
   unfold dataEOF
